@@ -59,6 +59,7 @@ def parseOp (toks : List String) : Option Op :=
   | ["read", k, n] => do pure (.read (← parseNat k) (← parseNat n))
   | ["readat", k, n, off] => do pure (.readAt (← parseNat k) (← parseNat n) (← parseInt off))
   | ["write", k, b] => do pure (.write (← parseNat k) (← payload b))
+  | ["readfrom", k, b] => do pure (.write (← parseNat k) (← payload b))      -- io.Copy(f, r), non-empty r that fits one buffer = Write
   | ["writeat", k, b, off] => do pure (.writeAt (← parseNat k) (← payload b) (← parseInt off))
   | ["seek", k, off, wh] => do pure (.seek (← parseNat k) (← parseInt off) (← parseNat wh))
   | ["trunc", k, n] => do pure (.trunc (← parseNat k) (← parseInt n))
